@@ -165,6 +165,22 @@ def run(rep, programs):
         if key in ("free_frames", "classes.free_frames"):
             rep.check(is_free_of_entry(amt), rule, "Trees::stats|%s|amount" % key, "+= tree.free()",
                       "%s is increased by %s, not by the entry's free counter" % (key, amt), span)
+    # entirely free trees: += free / TREE_FRAMES (or (free == TREE_FRAMES) as usize), unconditionally
+    ftacc = by.get("free_trees")
+    if ftacc and len(ftacc) == 1:
+        bi, amt, span, p = ftacc[0]
+        good = False
+        if amt is not None and amt[1] == 0 and len(amt[0]) == 1:
+            (a, v), = amt[0].items()
+            if v == 1 and a[0] == "bin" and a[1] == "Div" and a[3] == ("c", TF) and a[2][0] == "call" and a[2][1] == "llfree::trees::Tree::free":
+                good = True
+            if v == 1 and a[0] == "bin" and a[1] == "Eq" and ("c", TF) in (a[2], a[3]):
+                good = True
+        rep.check(good and unconditional_in_iteration(b, info, h, blocks, bi), rule, "Trees::stats|free_trees",
+                  "free_trees += tree.free() / TREE_FRAMES for every entry",
+                  "the count of entirely free trees is increased by %s" % (amt,), span)
+    else:
+        rep.violation(rule, "Trees::stats|free_trees", "expected one accumulation into free_trees per entry, found %d" % len(ftacc or []), b.span)
     fa = by.get("classes.free_frames")
     aa = by.get("classes.alloc_frames")
     if fa and aa and fa[0][1] is not None and aa[0][1] is not None:
